@@ -2,10 +2,17 @@
 Props/C05.lean — superposition: collections and sumup add fields; fields are linear in excitation.
 Marshalling part (level 2) first; at the end the kernel part: every ported closed-form kernel
 (Dipole, straight segment, Circle, Cuboid, Triangle, Tetrahedron) is linear in its excitation
-(moment / current / polarization), over ℝ (helper algebra in Lemmas/KernAlgebra.lean).
+(moment / current / polarization), over ℝ (helper algebra in Lemmas/KernAlgebra.lean).  Cylinder: the
+ported `BHJM_magnet_cylinder` is proportional to the polarization (positive factors for any
+polarization, any non-zero factor for an axial one), is the sum of its transversal and axial parts
+(Lemmas/KernCylinder.lean)
+and fully linear in it (`cylinder_linear_in_polarization`: the polar form `pol_xy`, `tetta =
+arctan2(pol_y, pol_x)`, kernel at `phi − tetta` is resolved with the kernel's cos/sin dependence on the
+azimuth and the addition theorems), whenever the evaluations involved return a value.
 -/
 import MagpyVerif.Lemmas.Level2Shape
 import MagpyVerif.Lemmas.KernAlgebra
+import MagpyVerif.Lemmas.KernCylinder
 namespace MagpyVerif.C05
 open MagpyVerif MagpyVerif.Level2
 variable {G V : Type}
@@ -197,6 +204,63 @@ example : bhjmTetra .J (⟨0, 0, 0⟩ : V3 ℝ) ⟨1, 0, 0⟩ ⟨0, 1, 0⟩ ⟨0
 example (fuel : Nat) (r0 r z : ℝ) (h : ℝ × ℝ) (e : circleHcyl fuel r0 r z 1 = some h) :
     circleHcyl fuel r0 r z 5 = some (5 * h.1, 5 * h.2) := by
   rw [circleHcyl_proportional, e]; rfl
+
+/-- C05 (Cylinder), transversal and general polarization: all four outputs of `BHJM_magnet_cylinder`
+are proportional to the polarization under a positive factor `c` — the masks `pol ≠ 0`, the angle
+`tetta = arctan2(pol_y, pol_x)` and hence every argument of the kernels and of `cel0` are unchanged,
+`pol_xy` and `pol_z` carry the factor; the result is computed (`some`) for `c·pol` iff it is for `pol` -/
+theorem cylinder_linear_in_polarization_tv (c : ℝ) (hc : 0 < c) (fuel : Nat) (f : Field) (dim : ℝ × ℝ)
+    (pol x : V3 ℝ) :
+    bhjmCylinder fuel f dim (vs c pol) x = (bhjmCylinder fuel f dim pol x).map (vs c) :=
+  bhjmCylinderRow_smul mu0R c hc fuel f _ _ _ _ pol
+
+/-- C05 (Cylinder), axial polarization `(0, 0, pz)`: proportional to `pz` for every non-zero factor,
+negative ones included (for `c = 0` the code skips the kernel, so the result is then `some 0` even
+where the kernel would fail) -/
+theorem cylinder_linear_in_polarization_ax (c : ℝ) (hc : c ≠ 0) (fuel : Nat) (f : Field) (dim : ℝ × ℝ)
+    (pz : ℝ) (x : V3 ℝ) :
+    bhjmCylinder fuel f dim ⟨0, 0, c * pz⟩ x = (bhjmCylinder fuel f dim ⟨0, 0, pz⟩ x).map (vs c) :=
+  bhjmCylinderRow_axial_smul mu0R c hc fuel f _ _ _ _ pz
+
+/-- C05 (Cylinder): the field of a cylinder with polarization `(px, py, pz)` is the sum of the fields of
+the transversally polarized cylinder `(px, py, 0)` and the axially polarized one `(0, 0, pz)` — all
+four outputs, every observer (inside terms, on-edge rule, pol = 0 special case included); it is
+computed iff both parts are -/
+theorem cylinder_polarization_split (fuel : Nat) (f : Field) (dim : ℝ × ℝ) (pol x : V3 ℝ) :
+    bhjmCylinder fuel f dim pol x =
+      (bhjmCylinder fuel f dim ⟨pol.x, pol.y, 0⟩ x).bind fun a =>
+        (bhjmCylinder fuel f dim ⟨0, 0, pol.z⟩ x).map fun b => a + b :=
+  bhjmCylinderRow_split mu0R fuel f _ _ _ _ pol
+
+/-- C05 (Cylinder), full linearity: for arbitrary polarizations `p1 p2` (any directions, also
+transversal ones of different azimuth) and arbitrary real `a b` (negative and zero included), all four
+outputs of `BHJM_magnet_cylinder` satisfy `bhjm (a·p1 + b·p2) = a·bhjm p1 + b·bhjm p2` whenever the
+three evaluations return a value (`none` = a `cel0` call failed; by `cylinder_polarization_split` and
+the two theorems above that happens for a polarization iff it happens for its transversal or axial part).
+The code computes in polar form (`pol_xy`, `tetta = arctan2(pol_y, pol_x)`, diametral kernel at `phi − tetta`);
+the proof uses that the kernel depends on the azimuth through `cos` (Hr, Hz) and `sin` (Hphi) only, in both of
+its branches, and `pol_xy·cos(phi − tetta) = pol_x cos phi + pol_y sin phi`. -/
+theorem cylinder_linear_in_polarization (a b : ℝ) (fuel : Nat) (f : Field) (dim : ℝ × ℝ) (p1 p2 x v1 v2 v : V3 ℝ)
+    (h1 : bhjmCylinder fuel f dim p1 x = some v1) (h2 : bhjmCylinder fuel f dim p2 x = some v2)
+    (h : bhjmCylinder fuel f dim (vs a p1 + vs b p2) x = some v) :
+    v = vs a v1 + vs b v2 :=
+  bhjmCylinderRow_linear mu0R a b fuel f _ _ _ _ p1 p2 v1 v2 v h1 h2 h
+
+-- non-vacuity: J inside the cylinder carries the factor; on the edge H = −(c·pol)/μ₀
+example : bhjmCylinder 200 .J (2, 2) (vs 5 ⟨1, 2, 3⟩) (⟨0, 0, 0⟩ : V3 ℝ) = some (vs 5 ⟨1, 2, 3⟩) := by
+  simp [bhjmCylinder, bhjmCylinderRow, cylMasks, n]
+example : bhjmCylinder 200 .B (2, 3) (vs 5 ⟨1, 2, 3⟩) (⟨3, 4, 5⟩ : V3 ℝ) =
+    (bhjmCylinder 200 .B (2, 3) ⟨1, 2, 3⟩ ⟨3, 4, 5⟩).map (vs 5) :=
+  cylinder_linear_in_polarization_tv 5 (by norm_num) 200 .B _ _ _
+-- the hypotheses of `cylinder_linear_in_polarization` are satisfiable with non-zero values: on the edge of the
+-- cylinder of diameter 2 and height 2 (no elliptic integral needed) H = −pol/μ₀ for two transversal
+-- polarizations of different direction and for their combination 2·p1 − 3·p2
+example :
+    bhjmCylinder 0 .H (2, 2) ⟨1, 0, 0⟩ (⟨1, 0, 1⟩ : V3 ℝ) = some ⟨-1 / mu0R, 0, 0⟩ ∧
+    bhjmCylinder 0 .H (2, 2) ⟨0, 1, 0⟩ (⟨1, 0, 1⟩ : V3 ℝ) = some ⟨0, -1 / mu0R, 0⟩ ∧
+    bhjmCylinder 0 .H (2, 2) (vs 2 ⟨1, 0, 0⟩ + vs (-3) ⟨0, 1, 0⟩) (⟨1, 0, 1⟩ : V3 ℝ) = some ⟨-2 / mu0R, 3 / mu0R, 0⟩ := by
+  refine ⟨?_, ?_, ?_⟩ <;>
+    simp [bhjmCylinder, bhjmCylinderRow, cylMasks, isclose, n, vd, vs]
 end kernels
 
 end MagpyVerif.C05
